@@ -31,7 +31,7 @@ from harness.lib.coqio import C, Some
 
 LEVEL = "proof"
 THEOREMS = [
-    "C19_flock_mutex", "C19_flock_same_inode", "C19_flock_death", "C19_flock_timeout", "C19_flock_ok_only_when_free",
+    "C19_flock_mutex", "C19_flock_same_inode", "C19_flock_unlink_breaks_mutex", "C19_flock_death", "C19_flock_timeout", "C19_flock_ok_only_when_free",
     "C19_s3_takeover_after_lease", "C19_s3_superseded", "C19_s3_is_held_sound", "C19_s3_timeout",
     "C19_s3_ok_only_when_unowned", "C19_s3_mutex_partial", "C19_s3_mutex_refuted",
     "C19_s3_mutex_gap_hypothesis_insufficient", "C19_s3_mutex_conditional_delete",
